@@ -390,6 +390,11 @@ impl ContextStatistics {
         self.last_read
             .store(SystemTime::now().unix_timestamp(), Ordering::Relaxed)
     }
+    /// (Re)starts the idle period without counting anything.
+    pub fn touch(&self) {
+        self.last_read
+            .store(SystemTime::now().unix_timestamp(), Ordering::Relaxed)
+    }
     pub fn is_timeout(&self, timeout: Duration) -> bool {
         if timeout.is_zero() {
             return false;
